@@ -35,6 +35,8 @@ def _f(x):
     if isinstance(x, str):
         if x == "inf":
             return math.inf
+        if x == "-inf":
+            return -math.inf
         if x == "nan":
             return math.nan
     return float(Fraction(x))
@@ -96,7 +98,9 @@ class C11(Prop):
             "ties; 30% not), rows shuffled, both map classes, auto_group on/off; queries at knots, strictly "
             "between flanking markers, outside the range, on absent chromosomes; distance arrays with 1-4 "
             "chromosome runs, optional NaN positions and slices; map-function arguments 0, tiny, dyadic, large, "
-            "inf; genotype matrices (phased/unphased) whose variants are grouped by the real group_vrnt.  "
+            "inf; genotype matrices (phased/unphased) whose variants are grouped by the real group_vrnt, 70% with a "
+            "history of 1-4 placements (interp_xoprob / interp_genpos) on TWO different maps and map functions on the "
+            "same object, half of those constructed with unrelated preset vrnt_genpos / vrnt_xoprob.  "
             "Non-trivial = mapfn case with >= 3 distinct distances incl. a positive finite one; gdist case "
             "with >= 2 runs and a run of >= 3 markers; interp case with shuffled rows and a query strictly "
             "between two markers; xoprob case with >= 2 chromosomes and a chromosome with >= 2 variants")
@@ -112,15 +116,22 @@ class C11(Prop):
                    "d = inf: binary64 cannot resolve 1 - 2r beyond that"]
 
     # ------------------------------------------------------------------ generation
-    def _gen_map(self, rng, nchr=None):
+    def _gen_map(self, rng, nchr=None, labels=None, like=None):
+        """`like`: rows of another map; chromosomes shared with it get their markers in the same physical
+        region (so that a matrix laid out for one map is not extrapolated absurdly far on the other)"""
         nchr = nchr or rng.choice([1, 2, 2, 3, 3, 4, 5])
-        labels = rng.sample([-2, 0, 1, 2, 3, 4, 5, 7, 9, 12, 20], nchr)
+        labels = list(labels) if labels is not None else rng.sample([-2, 0, 1, 2, 3, 4, 5, 7, 9, 12, 20], nchr)
         rows = []
         congruent = rng.random() < 0.7
         for c in labels:
             nm = rng.choice([2, 2, 3, 3, 4, 5, 6, 8])
             span = rng.choice([10, 40, 100, 1000, 1000000])
-            phys = sorted(rng.sample(range(1, span * nm + 2), nm))
+            ref = sorted(int(r[1]) for r in (like or []) if r[0] == c)
+            if ref:
+                lo, hi = ref[0] - 5, max(ref[-1] + 5, ref[0] - 5 + nm)
+                phys = sorted(rng.sample(range(lo, hi + 1), nm))
+            else:
+                phys = sorted(rng.sample(range(1, span * nm + 2), nm))
             if congruent:
                 g = sorted(rng.randint(0, 192) for _ in range(nm))
                 if rng.random() < 0.6:
@@ -197,6 +208,23 @@ class C11(Prop):
                         "mchr": [2, 1, 1, 2, 3], "mphy": [15, 12, 25, 35, 5]})
             out.append({"kind": "xoprob", "cls": "ext", "fn": fn, "phased": False, "rows": rows_d,
                         "mchr": [2, 1, 1, 2, 3, 3, 1], "mphy": [15, 12, 25, 35, 5, 9, 30]})
+        # one matrix placed on a map, then on a DIFFERENT map (and map function); and a matrix constructed
+        # with unrelated vrnt_genpos / vrnt_xoprob: the answer must come from the map actually passed
+        rows_b = [[1, 10, 0, 0], [1, 30, 2, 1], [2, 10, "1/2", 2], [2, 40, "3/4", 3], [3, 1, 0, 4], [3, 9, 1, 5]]
+        other = {"haldane": "kosambi", "kosambi": "haldane"}
+        for fn in ("haldane", "kosambi"):
+            out.append({"kind": "xoprob", "cls": "std", "fn": fn, "phased": True, "rows": rows_d, "rows2": rows_b,
+                        "mchr": [2, 1, 1, 2, 3], "mphy": [15, 12, 25, 35, 5], "preset": None,
+                        "steps": [{"op": "xoprob", "map": 0, "fn": fn}, {"op": "xoprob", "map": 1, "fn": other[fn]},
+                                  {"op": "genpos", "map": 0, "fn": fn}, {"op": "xoprob", "map": 0, "fn": fn}]})
+            out.append({"kind": "xoprob", "cls": "std", "fn": fn, "phased": False, "rows": rows_d, "rows2": rows_b,
+                        "mchr": [2, 1, 1, 2, 3], "mphy": [15, 12, 25, 35, 5],
+                        "preset": {"genpos": [5, "11/2", 6, "13/2", 7], "xoprob": ["1/4", "1/8", "1/16", "1/32", "1/64"]},
+                        "steps": [{"op": "xoprob", "map": 1, "fn": fn}, {"op": "genpos", "map": 0, "fn": fn}]})
+            out.append({"kind": "xoprob", "cls": "ext", "fn": fn, "phased": True, "rows": rows_b, "rows2": rows_d,
+                        "mchr": [1, 1, 2], "mphy": [12, 25, 35],
+                        "preset": {"genpos": [9, 8, 7], "xoprob": None},
+                        "steps": [{"op": "genpos", "map": 0, "fn": fn}, {"op": "xoprob", "map": 1, "fn": fn}]})
         return out
 
     def generate(self, rng, n, tier):
@@ -256,8 +284,30 @@ class C11(Prop):
                         seen.add((c, p))
                         c2.append(c)
                         p2.append(p)
-                out.append({"kind": "xoprob", "cls": cls, "fn": rng.choice(["haldane", "kosambi"]),
-                            "phased": rng.random() < 0.5, "rows": rows, "mchr": c2, "mphy": p2})
+                fn = rng.choice(["haldane", "kosambi"])
+                case = {"kind": "xoprob", "cls": cls, "fn": fn,
+                        "phased": rng.random() < 0.5, "rows": rows, "mchr": c2, "mphy": p2}
+                if rng.random() < 0.7:
+                    # history on ONE matrix object: several placements on two different maps / map functions,
+                    # optionally starting from unrelated preset positions / probabilities
+                    labels = sorted({r[0] for r in rows})
+                    if rng.random() < 0.3 and len(labels) > 1:
+                        labels = labels[:-1] + [31]        # one chromosome replaced by another one
+                    case["rows2"] = self._gen_map(rng, labels=labels, like=rows)
+                    nst = rng.randint(1, 4)
+                    steps = [{"op": rng.choice(["xoprob", "xoprob", "genpos"]), "map": rng.randint(0, 1),
+                              "fn": rng.choice(["haldane", "kosambi"])} for _ in range(nst)]
+                    if nst >= 2 and all(st["map"] == steps[0]["map"] for st in steps):
+                        steps[-1]["map"] = 1 - steps[0]["map"]
+                    case["steps"] = steps
+                    case["preset"] = None
+                    if rng.random() < 0.5:
+                        nv = len(c2)
+                        case["preset"] = {
+                            "genpos": [canon.enc(Fraction(rng.randint(200, 900), 64)) for _ in range(nv)],
+                            "xoprob": ([canon.enc(Fraction(rng.randint(1, 31), 64)) for _ in range(nv)]
+                                       if rng.random() < 0.6 else None)}
+                out.append(case)
         return out
 
     # ------------------------------------------------------------------ implementation
@@ -325,23 +375,42 @@ class C11(Prop):
             return obs
         if k == "xoprob":
             m = _mods()
-            g = _build_map(case["cls"], case["rows"])
+            maps = [_build_map(case["cls"], case["rows"])]
+            if case.get("rows2"):
+                maps.append(_build_map(case["cls"], case["rows2"]))
+            g = maps[0]
             fn = _mapfn(case["fn"])
             nv = len(case["mchr"])
             vc = numpy.array(case["mchr"], dtype=int)
             vp = numpy.array(case["mphy"], dtype=int)
+            kw = {}
+            pre = case.get("preset")
+            if pre:
+                kw["vrnt_genpos"] = numpy.array([_f(x) for x in pre["genpos"]], dtype=float)
+                if pre.get("xoprob") is not None:
+                    kw["vrnt_xoprob"] = numpy.array([_f(x) for x in pre["xoprob"]], dtype=float)
             if case["phased"]:
                 mat = numpy.zeros((2, 2, nv), dtype="int8")
-                gm = m["dpgm"].DensePhasedGenotypeMatrix(mat, vrnt_chrgrp=vc, vrnt_phypos=vp)
+                gm = m["dpgm"].DensePhasedGenotypeMatrix(mat, vrnt_chrgrp=vc, vrnt_phypos=vp, **kw)
             else:
                 mat = numpy.zeros((2, nv), dtype="int8")
-                gm = m["dgm"].DenseGenotypeMatrix(mat, vrnt_chrgrp=vc, vrnt_phypos=vp)
+                gm = m["dgm"].DenseGenotypeMatrix(mat, vrnt_chrgrp=vc, vrnt_phypos=vp, **kw)
             gm.group_vrnt()
-            gm.interp_xoprob(g, fn)
+
+            def snap():
+                return {"genpos": None if gm.vrnt_genpos is None else canon.enc(numpy.array(gm.vrnt_genpos)),
+                        "xoprob": None if gm.vrnt_xoprob is None else canon.enc(numpy.array(gm.vrnt_xoprob))}
+            snaps = [snap()]           # state after grouping, before any placement
+            for st in self._steps(case):
+                if st["op"] == "xoprob":
+                    gm.interp_xoprob(maps[st["map"]], _mapfn(st["fn"]))
+                else:
+                    gm.interp_genpos(maps[st["map"]])
+                snaps.append(snap())
             qc, qp = gm.vrnt_chrgrp, gm.vrnt_phypos
             gp = g.interp_genpos(qc, qp)
-            return {"qchr": canon.enc(qc), "qphy": canon.enc(qp),
-                    "genpos": canon.enc(gm.vrnt_genpos), "xoprob": canon.enc(gm.vrnt_xoprob),
+            return {"qchr": canon.enc(qc), "qphy": canon.enc(qp), "snaps": snaps,
+                    "genpos": snaps[-1]["genpos"], "xoprob": snaps[-1]["xoprob"],
                     # the four rprob wrappers of the map-function class on the same variants
                     "r1p": canon.enc(fn.rprob1p(g, qc, qp)), "r2p": canon.enc(fn.rprob2p(g, qc, qp)),
                     "r1g": canon.enc(fn.rprob1g(g, qc, gp)), "r2g": canon.enc(fn.rprob2g(g, qc, gp))}
@@ -376,11 +445,24 @@ class C11(Prop):
                     if case["auto_group"] else [])
         if k == "xoprob":
             q = {"qchr": obs["qchr"], "qphy": obs["qphy"]}
-            return [{"op": "c11.xoprob", "fn": case["fn"], "rows": case["rows"], **q},
-                    {"op": "c11.spec_xoprob", "fn": case["fn"], "rows": case["rows"], **q,
-                     "genpos": obs["genpos"], "xoprob": obs["xoprob"]},
-                    {"op": "c11.rprob", "fn": case["fn"], "rows": case["rows"], **q}]
+            reqs = [{"op": "c11.rprob", "fn": case["fn"], "rows": case["rows"], **q}]
+            for st, sn in zip(self._steps(case), obs["snaps"][1:]):
+                rows = case["rows2"] if st["map"] == 1 else case["rows"]
+                # model of this placement, and the Spec of the clause against the map ACTUALLY passed
+                reqs.append({"op": "c11.xoprob", "fn": st["fn"], "rows": rows, **q})
+                if st["op"] == "xoprob":
+                    reqs.append({"op": "c11.spec_xoprob", "fn": st["fn"], "rows": rows, **q,
+                                 "genpos": sn["genpos"] if sn["genpos"] is not None else [],
+                                 "xoprob": sn["xoprob"] if sn["xoprob"] is not None else []})
+                else:
+                    gp = sn["genpos"] if sn["genpos"] is not None else []
+                    reqs.append({"op": "c11.spec_interp", "rows": rows, **q, "out": gp, "out2": gp})
+            return reqs
         raise ValueError(k)
+
+    @staticmethod
+    def _steps(case):
+        return case.get("steps") or [{"op": "xoprob", "map": 0, "fn": case["fn"]}]
 
     @staticmethod
     def _seq_ok(case):
@@ -501,7 +583,7 @@ class C11(Prop):
             return {"corr": corr, "spec": spec, "nontrivial": nontriv,
                     "detail": f"interp[{case['cls']}] spec: {detail}; corr: {why or 'ok'}; out={obs['out']} model={mi['out']}"}
         if k == "xoprob":
-            m, s, mr = ans
+            mr = ans[0]
             why = []
             for key, mk in (("r1p", "r1"), ("r1g", "r1")):
                 if not self._close_list(mr[mk], obs[key]):
@@ -511,19 +593,43 @@ class C11(Prop):
                     why.append(key)
             # the real group_vrnt must have produced a sorted arrangement of exactly the case's variants
             got = list(zip(obs["qchr"], obs["qphy"]))
-            if got != sorted(zip(case["mchr"], case["mphy"])):
+            order = sorted(range(len(case["mchr"])), key=lambda i: (case["mchr"][i], case["mphy"][i]))
+            if got != [(case["mchr"][i], case["mphy"][i]) for i in order]:
                 why.append("matrix variants not grouped as (chr, phy)-sorted")
-            if not self._close_list(m["genpos"], obs["genpos"]):
-                why.append("vrnt_genpos")
-            if not self._close_list(m["xoprob"], obs["xoprob"], 1e-9, 1e-12):
-                why.append("vrnt_xoprob")
+            # state before any placement: preset arrays carried along by the grouping, else absent
+            pre = case.get("preset") or {}
+            snaps = obs["snaps"]
+            for key in ("genpos", "xoprob"):
+                want = pre.get(key)
+                if want is None:
+                    if snaps[0][key] is not None:
+                        why.append(f"{key} present before any placement")
+                elif snaps[0][key] is None or not self._close_list([want[i] for i in order], snaps[0][key]):
+                    why.append(f"preset {key} not carried along by group_vrnt")
+            # every placement of the history: model of the map / map function actually passed
+            spec, sdetail = True, []
+            steps = self._steps(case)
+            for n, st in enumerate(steps):
+                mdl, sp = ans[1 + 2 * n], ans[2 + 2 * n]
+                sn, prev = snaps[n + 1], snaps[n]
+                tag = f"step{n}:{st['op']}(map{st['map']},{st['fn']})"
+                if sn["genpos"] is None or not self._close_list(mdl["genpos"], sn["genpos"]):
+                    why.append(tag + " vrnt_genpos")
+                if st["op"] == "xoprob":
+                    if sn["xoprob"] is None or not self._close_list(mdl["xoprob"], sn["xoprob"], 1e-9, 1e-12):
+                        why.append(tag + " vrnt_xoprob")
+                elif sn["xoprob"] != prev["xoprob"]:
+                    why.append(tag + " changed vrnt_xoprob")
+                if not sp["ok"]:
+                    spec = False
+                sdetail.append(f"{tag}: {sp['detail']}")
             runs = {}
             for c in obs["qchr"]:
                 runs[c] = runs.get(c, 0) + 1
             nontriv = len(runs) >= 2 and any(n >= 2 for n in runs.values())
-            return {"corr": not why, "spec": bool(s["ok"]), "nontrivial": nontriv,
-                    "detail": f"xoprob[{case['cls']},{case['fn']}] spec: {s['detail']}; corr: {why or 'ok'}; "
-                              f"xoprob={obs['xoprob']} model={m['xoprob']}"}
+            return {"corr": not why, "spec": spec, "nontrivial": nontriv,
+                    "detail": f"xoprob[{case['cls']}] spec: {'; '.join(sdetail)}; corr: {why or 'ok'}; "
+                              f"final xoprob={obs['xoprob']}"}
         raise ValueError(k)
 
     def signature(self, case, obs, verdict):
@@ -549,9 +655,20 @@ class C11(Prop):
                            "gen": case["gen"][:i] + case["gen"][i + 1:], "slices": None}
         elif k in ("interp", "xoprob"):
             qa, qb = ("qchr", "qphy") if k == "interp" else ("mchr", "mphy")
+            if k == "xoprob":
+                if case.get("preset"):
+                    yield {**case, "preset": None}
+                st = case.get("steps") or []
+                for i in range(len(st)):
+                    if len(st) > 1:
+                        yield {**case, "steps": st[:i] + st[i + 1:]}
             for i in range(len(case[qa])):
                 if len(case[qa]) > 1:
-                    yield {**case, qa: case[qa][:i] + case[qa][i + 1:], qb: case[qb][:i] + case[qb][i + 1:]}
+                    c2 = {**case, qa: case[qa][:i] + case[qa][i + 1:], qb: case[qb][:i] + case[qb][i + 1:]}
+                    if k == "xoprob" and case.get("preset"):
+                        pr = case["preset"]
+                        c2["preset"] = {kk: (None if vv is None else vv[:i] + vv[i + 1:]) for kk, vv in pr.items()}
+                    yield c2
             rows = case["rows"]
             for i in range(len(rows)):
                 c = rows[i][0]
@@ -668,7 +785,24 @@ class C11(Prop):
             self.vrnt_genpos = gmap.interp_genpos(self._vrnt_chrgrp, self._vrnt_phypos)
             self.vrnt_xoprob = numpy.roll(gmapfn.rprob1g(gmap, self._vrnt_chrgrp, self._vrnt_genpos), 1)
 
+        def xoprob_keeps_existing_genpos(self, gmap, gmapfn, **kw):
+            if self._vrnt_genpos is None:
+                self.vrnt_genpos = gmap.interp_genpos(self._vrnt_chrgrp, self._vrnt_phypos)
+            self.vrnt_xoprob = gmapfn.rprob1g(gmap, self._vrnt_chrgrp, self._vrnt_genpos)
+
+        def xoprob_keeps_existing_xoprob(self, gmap, gmapfn, **kw):
+            self.vrnt_genpos = gmap.interp_genpos(self._vrnt_chrgrp, self._vrnt_phypos)
+            if self._vrnt_xoprob is None:
+                self.vrnt_xoprob = gmapfn.rprob1g(gmap, self._vrnt_chrgrp, self._vrnt_genpos)
+
+        def genpos_keeps_existing(self, gmap, **kw):
+            if self._vrnt_genpos is None:
+                self.vrnt_genpos = gmap.interp_genpos(self._vrnt_chrgrp, self._vrnt_phypos)
+
         return [
+            ("interp_xoprob_keeps_existing_genpos", lambda: patch(D, "interp_xoprob", xoprob_keeps_existing_genpos)),
+            ("interp_xoprob_keeps_existing_xoprob", lambda: patch(D, "interp_xoprob", xoprob_keeps_existing_xoprob)),
+            ("interp_genpos_keeps_existing", lambda: patch(D, "interp_genpos", genpos_keeps_existing)),
             ("haldane_exp_minus_d", lambda: patch(H, "mapfn", hald_exp_d)),
             ("haldane_inverse_without_half", lambda: patch(H, "invmapfn", hald_inv_nofactor)),
             ("kosambi_tanh_d", lambda: patch(K, "mapfn", kos_tanh_d)),
